@@ -431,8 +431,10 @@ func runIDTables(r *core.Run) {
 		{"identifier start table", isStart, "[$_A-Za-z]"},
 		{"identifier part table", func(c int) bool { return isStart(c) || (c >= '0' && c <= '9') }, "[$_0-9A-Za-z]"},
 	}
-	// the two ASCII class tables are found by type (package-level [256]bool) and matched to the class they are closest to
+	// the two ASCII class tables are found by type — a package-level [256]bool, or one bit of a package-level
+	// [256]<integer> class table (charTable[c]&identifierStart != 0) — and matched to the class they are closest to
 	var tabs []string
+	derived := map[string]*[256]bool{}
 	sc := pk.Types.Scope()
 	for _, n := range sc.Names() {
 		v, ok := sc.Lookup(n).(*types.Var)
@@ -440,8 +442,47 @@ func runIDTables(r *core.Run) {
 			continue
 		}
 		if a, ok := v.Type().Underlying().(*types.Array); ok && a.Len() == 256 {
-			if b, ok := a.Elem().Underlying().(*types.Basic); ok && b.Kind() == types.Bool {
+			b, ok := a.Elem().Underlying().(*types.Basic)
+			if !ok {
+				continue
+			}
+			if b.Kind() == types.Bool {
 				tabs = append(tabs, n)
+			} else if b.Info()&types.IsInteger != 0 {
+				l, err := evalGlobal(pk, n)
+				if err != nil || len(l.Elems) != 256 {
+					continue
+				}
+				var vals [256]int64
+				good := true
+				for i, e := range l.Elems {
+					if e == nil {
+						continue // zero
+					}
+					x, ok := e.Int()
+					if !ok {
+						good = false
+						break
+					}
+					vals[i] = x
+				}
+				if !good {
+					continue
+				}
+				for bit := 0; bit < 16; bit++ {
+					var t [256]bool
+					any := false
+					for c := range vals {
+						if vals[c]&(1<<bit) != 0 {
+							t[c], any = true, true
+						}
+					}
+					if any {
+						nm := fmt.Sprintf("%s&%#x", n, 1<<bit)
+						derived[nm] = &t
+						tabs = append(tabs, nm)
+					}
+				}
 			}
 		}
 	}
@@ -453,9 +494,12 @@ func runIDTables(r *core.Run) {
 			if used[n] {
 				continue
 			}
-			t, err := boolTable(pk, n)
-			if err != nil {
-				continue
+			t := derived[n]
+			if t == nil {
+				var err error
+				if t, err = boolTable(pk, n); err != nil {
+					continue
+				}
 			}
 			d := 0
 			for c := 0; c < 256; c++ {
@@ -468,7 +512,7 @@ func runIDTables(r *core.Run) {
 			}
 		}
 		if bestT == nil || bestDist > 16 {
-			r.Unknown(tc.name, token.NoPos, "no package-level [256]bool table of package js resembles "+tc.doc)
+			r.Unknown(tc.name, token.NoPos, "no package-level [256]bool table (or bit of a [256]integer class table) of package js resembles "+tc.doc)
 			continue
 		}
 		used[bestName] = true
